@@ -158,7 +158,7 @@ def _status_is_int(result):
 
 
 c = contract(f"{T}:HttpxTransport.request", props=["C17", "C06"], types={"method": "str", "url": "str"},
-             inline=["HTTPError"], dependency_post={"self._client.request": _status_is_int}, variants=AUTH_VARIANTS)
+             inline=["HTTPError"], track_calls=True, dependency_post={"self._client.request": _status_is_int}, variants=AUTH_VARIANTS)
 
 @c.requires
 def rq_pre(self, method, url, kwargs):
